@@ -27,3 +27,9 @@ _strip('_strip_resid_str', 'resid_str', ['resid', 'r'])
 _strip('_strip_gno_str', 'gno_str', ['gno', 'g'])
 C[M + 'is_xlmod_str'] = dict(params=dict(xlmod_str='str'), returns='bool',
                              ensures=[('prefix-test', "result == (iprefix(xlmod_str, 'xlmod:') or iprefix(xlmod_str, 'x:'))")])
+C[M + 'is_gno_str'] = dict(params=dict(gno_str='str'), returns='bool',
+                           ensures=[('prefix-test', "result == (iprefix(gno_str, 'gno:') or iprefix(gno_str, 'g:'))")])
+C[M + 'is_resid_str'] = dict(params=dict(resid_str='str'), returns='bool',
+                             ensures=[('prefix-test', "result == (iprefix(resid_str, 'resid:') or iprefix(resid_str, 'r:'))")])
+# the three pure-prefix tests, as other contract modules assume them at call sites
+PREFIX_TESTS = {'is_gno_str': ('gno_str', ['gno:', 'g:']), 'is_xlmod_str': ('xlmod_str', ['xlmod:', 'x:']), 'is_resid_str': ('resid_str', ['resid:', 'r:'])}
